@@ -182,9 +182,26 @@ func c11Group(w *W) {
 	var svcs []*srv.Service
 	for i := 0; i < n; i++ {
 		m := newMember(h, i)
+		// a member may already have been started by somebody else (still
+		// running, or finished) when the group gets to it: the group must still
+		// await it and collect its failure
+		if simrt.Choose(4) == 0 {
+			m.pre = 1 + simrt.Choose(2)
+			if m.pre == 2 {
+				m.blocks = false
+			}
+		}
 		members = append(members, m)
 		svcs = append(svcs, m.svc)
 	}
+	for _, m := range members {
+		if m.pre != 0 {
+			if err := m.svc.Start(gctx); err != nil {
+				panic(err)
+			}
+		}
+	}
+	simrt.Quiesce() // pre-started members reach their steady state
 	g := srv.Group(fun.SliceIterator(svcs))
 	var waitErr error
 	waitRet := int64(0)
